@@ -61,5 +61,5 @@ def replay(run, path):
     run.harness_run(["heap", trace, stats, hf])
     recs = run.validate_trace("Trace_Heap.tla", "Trace_Heap.cfg", trace_path=trace)
     mine = [r for r in recs if r["prop"] == run.prop]
-    run.traces, run.evals, run.distinct += 1, len(v["ops"]), 2
+    run.traces, run.evals, run.distinct = 1, len(v["ops"]), 2
     return run.finish([dict(prop=run.prop, key=r["key"], ops=v["ops"]) for r in mine])
